@@ -214,8 +214,8 @@ Section Generic.
   Lemma below_ext : forall L (k1 k2 : @kont S), (forall r s, k1 r s = k2 r s) ->
     forall r s, below L k1 r s = below L k2 r s.
   Proof.
-    intros L k1 k2 Hk r s. destruct L; cbn; try apply Hk.
-    destruct (ctx_mark r); [reflexivity | apply Hk].
+    intros L k1 k2 Hk r s. unfold below. destruct (cut L r); [reflexivity|].
+    rewrite Hk. reflexivity.
   Qed.
 
   Definition is_short (h : handler) : Prop := hb h = BShortOk \/ hb h = BShortErr.
@@ -255,6 +255,22 @@ Section Generic.
       rewrite Hm, mid_nil, Hb, IH, Hr.
       cbn [rev enters exits map]. unfold exits. rewrite map_app. cbn [map app].
       rewrite <- !app_assoc. reflexivity.
+  Qed.
+
+  (* the same when what comes back may also be a panic unwinding (no exit events then) *)
+  Definition exits_if (L : layer) (l : list handler) (x : res) : list ev :=
+    if returns x then exits L (rev l) x else [].
+
+  Lemma chain_plain_gen : forall L l core r s s' tc x,
+    Forall plain l -> core r s = (s', tc, x) ->
+    chain mid L l core r s = (s', enters L l r ++ tc ++ exits_if L l x, x).
+  Proof.
+    intros L l core r s s' tc x Hp Hc. unfold exits_if. destruct (returns x) eqn:Hr.
+    - apply chain_plain; assumption.
+    - induction Hp as [|h l [Hb Hm] Hp IH].
+      + cbn. rewrite app_nil_r. exact Hc.
+      + cbn [chain fold_right]. fold (chain mid L l core). unfold wrap, pre.
+        rewrite Hm, mid_nil, Hb, IH, Hr. reflexivity.
   Qed.
 
   (* a short-circuiting handler below pass-through ones *)
@@ -331,8 +347,8 @@ Section Rel.
 
   Lemma below_rel : forall L k1 k2, krel k1 k2 -> krel (below L k1) (below L k2).
   Proof.
-    intros L k1 k2 Hk r s t HR. destruct L; cbn; try exact (Hk r s t HR).
-    destruct (ctx_mark r); [eauto 10 | exact (Hk r s t HR)].
+    intros L k1 k2 Hk r s t HR. unfold below. destruct (cut L r); [eauto 10|].
+    destruct (Hk r s t HR) as [s' [t' [tr [x [K1 [K2 HR']]]]]]. rewrite K1, K2. eauto 10.
   Qed.
 
   Variable rd : layer -> S -> clo.
@@ -573,36 +589,75 @@ Fixpoint onion_trace (ls : list layer) (lst : layer -> list handler) (r : req) (
   | L :: ls' => enters L (lst L) r ++ onion_trace ls' lst r x ++ exits L (rev (lst L)) x
   end.
 
-Lemma call_from_plain : forall (S : Type) (mid : list mop -> S -> option S)
+(* trace and result of a call through pass-through handlers, whatever the context state and the
+   outcome of the method: what every layer sees on the way in and on the way back *)
+Fixpoint onion_tr (ls : list layer) (lst : layer -> list handler) (r : req) : list ev * res :=
+  match ls with
+  | [] => ([ECore r], core_res r)
+  | L :: ls' =>
+      let '(t, x) := match cut L r with
+                     | Some x => ([], x)
+                     | None => let '(t, x) := onion_tr ls' lst r in (t, back L x)
+                     end in
+      (enters L (lst L) r ++ t ++ exits_if L (lst L) x, x)
+  end.
+
+Lemma call_from_plain_gen : forall (S : Type) (mid : list mop -> S -> option S)
   (rd : layer -> S -> clo) (lst : layer -> list handler) (s : S),
   (forall u, mid [] u = Some u) ->
   (forall L, rd L s = chain_clo (lst L)) -> (forall L, Forall plain (lst L)) ->
-  forall ls r, ctx_mark r = None ->
-  call_from mid rd ls r s = (s, onion_trace ls lst r (ROk (r ++ [99%N])), ROk (r ++ [99%N])).
+  forall ls r,
+  call_from mid rd ls r s = (s, fst (onion_tr ls lst r), snd (onion_tr ls lst r)).
 Proof.
-  intros S mid rd lst s Hnil Hrd Hp ls. induction ls as [|L ls IH]; intros r Hlive.
-  - cbn. unfold execute, strip_ctx. rewrite Hlive. reflexivity.
-  - cbn [call_from onion_trace]. rewrite Hrd, apply_chain.
-    apply chain_plain; [exact Hnil | apply Hp | | reflexivity].
-    destruct L; cbn [below]; try rewrite Hlive; apply IH; exact Hlive.
+  intros S mid rd lst s Hnil Hrd Hp ls. induction ls as [|L ls IH]; intros r.
+  - reflexivity.
+  - cbn [call_from onion_tr]. rewrite Hrd, apply_chain.
+    destruct (cut L r) as [x|] eqn:Ec.
+    + cbn [fst snd]. apply chain_plain_gen; [exact Hnil | apply Hp |].
+      unfold below. rewrite Ec. reflexivity.
+    + destruct (onion_tr ls lst r) as [t x] eqn:Eo. cbn [fst snd].
+      apply chain_plain_gen; [exact Hnil | apply Hp |].
+      unfold below. rewrite Ec, IH, Eo. reflexivity.
 Qed.
 
-(* a call whose context is already done: every installed client handler is entered and left
-   once, in order; the transport answers ctx.Err(), which travels back through all of them *)
-Lemma call_from_done : forall (S : Type) (mid : list mop -> S -> option S)
-  (rd : layer -> S -> clo) (lst : layer -> list handler) (s : S),
-  (forall u, mid [] u = Some u) ->
-  (forall L, rd L s = chain_clo (lst L)) -> (forall L, Forall plain (lst L)) ->
-  forall r m, ctx_mark r = Some m ->
-  call_from mid rd layers r s =
-  (s, enters LCI (lst LCI) r ++ (enters LCO (lst LCO) r ++ [] ++ exits LCO (rev (lst LCO)) (RErr m))
+Definition plain_req (r : req) : Prop := ctx_mark r = None /\ meth_mark r = None.
+
+Lemma onion_tr_plain : forall lst r, plain_req r ->
+  onion_tr layers lst r = (onion_trace layers lst r (ROk (r ++ [99%N])), ROk (r ++ [99%N])).
+Proof.
+  intros lst r [Hlive Hm]. unfold layers. cbn [onion_tr onion_trace cut]. rewrite Hlive.
+  unfold core_res, payload. rewrite Hm. unfold strip_ctx. rewrite Hlive.
+  cbn [back]. unfold exits_if. cbn [returns]. reflexivity.
+Qed.
+
+Lemma onion_tr_done : forall lst r m, ctx_mark r = Some m ->
+  onion_tr layers lst r =
+  (enters LCI (lst LCI) r ++ (enters LCO (lst LCO) r ++ [] ++ exits LCO (rev (lst LCO)) (RErr m))
       ++ exits LCI (rev (lst LCI)) (RErr m), RErr m).
 Proof.
-  intros S mid rd lst s Hnil Hrd Hp r m Hdone. unfold layers. cbn [call_from].
-  rewrite (Hrd LCI), apply_chain.
-  apply chain_plain; [exact Hnil | apply Hp | | reflexivity]. cbn [below].
-  rewrite (Hrd LCO), apply_chain.
-  apply chain_plain; [exact Hnil | apply Hp | | reflexivity]. cbn [below]. rewrite Hdone. reflexivity.
+  intros lst r m Hdone. unfold layers. cbn [onion_tr cut]. rewrite Hdone.
+  cbn [back]. unfold exits_if. cbn [returns]. reflexivity.
+Qed.
+
+(* the method fails (returns an error / panics): what every layer sees coming back *)
+Lemma onion_tr_fails : forall lst r, ctx_mark r = None ->
+  (meth_mark r = Some 8001%N ->
+   onion_tr layers lst r =
+   (enters LCI (lst LCI) r ++ (enters LCO (lst LCO) r ++ (enters LSO (lst LSO) r ++
+      (enters LSI (lst LSI) r ++ [ECore r] ++ exits LSI (rev (lst LSI)) (RErr 77))
+      ++ exits LSO (rev (lst LSO)) (RErr 77))
+      ++ exits LCO (rev (lst LCO)) (RWire 77))
+      ++ exits LCI (rev (lst LCI)) (RErr 77), RErr 77)) /\
+  (meth_mark r = Some 8002%N ->
+   onion_tr layers lst r =
+   (enters LCI (lst LCI) r ++ (enters LCO (lst LCO) r ++ (enters LSO (lst LSO) r ++
+      (enters LSI (lst LSI) r ++ [ECore r] ++ [])
+      ++ exits LSO (rev (lst LSO)) (RErr 78))
+      ++ exits LCO (rev (lst LCO)) (RWire 78))
+      ++ exits LCI (rev (lst LCI)) (RErr 78), RErr 78)).
+Proof.
+  intros lst r Hlive. split; intros Hm; unfold layers; cbn [onion_tr cut]; rewrite Hlive;
+    unfold core_res; rewrite Hm; cbn [N.eqb Pos.eqb back]; unfold exits_if; cbn [returns]; reflexivity.
 Qed.
 
 Definition pool_plain (pool : list pval) : Prop :=
@@ -614,17 +669,17 @@ Proof.
   eapply Forall_forall; [exact H | apply Hi; exact Hx].
 Qed.
 
-Lemma trace_onion : forall pool, guard pool -> pool_plain pool -> forall ops r, ctx_mark r = None ->
+Lemma call_plain_any : forall pool, guard pool -> pool_plain pool -> forall ops r,
   let s := snd (run pool ops sys_init) in
   let t := snd (spec_run pool ops ssys_init) in
-  call pool r s = (s, onion_trace layers (fun L => spec_list L t) r (ROk (r ++ [99%N])),
-                   ROk (r ++ [99%N])).
+  call pool r s = (s, fst (onion_tr layers (fun L => spec_list L t) r),
+                   snd (onion_tr layers (fun L => spec_list L t) r)).
 Proof.
-  intros pool [Gi Go] [Pi Po] ops r Hlive s t. subst s t.
+  intros pool [Gi Go] [Pi Po] ops r s t. subst s t.
   destruct (run_refines pool (NoDup_code_inj _ Gi) (NoDup_code_inj _ Go) ops sys_init (inv_init pool))
     as [H1 H2]. change (abs sys_init) with ssys_init in H1. rewrite H1. cbn [snd].
   set (s := snd (run pool ops sys_init)) in *.
-  unfold call. apply call_from_plain; [| | | exact Hlive].
+  unfold call. apply call_from_plain_gen.
   - reflexivity.
   - intros L. rewrite spec_list_abs. apply (inv_sys_coherent pool s H2).
   - intros L. rewrite spec_list_abs.
@@ -632,6 +687,16 @@ Proof.
     destruct L; cbn [layer_pm];
       [ exact (Forall_incl _ _ _ _ Pi Hci) | exact (Forall_incl _ _ _ _ Po Hco)
       | exact (Forall_incl _ _ _ _ Po Hso) | exact (Forall_incl _ _ _ _ Pi Hsi) ].
+Qed.
+
+Lemma trace_onion : forall pool, guard pool -> pool_plain pool -> forall ops r, plain_req r ->
+  let s := snd (run pool ops sys_init) in
+  let t := snd (spec_run pool ops ssys_init) in
+  call pool r s = (s, onion_trace layers (fun L => spec_list L t) r (ROk (r ++ [99%N])),
+                   ROk (r ++ [99%N])).
+Proof.
+  intros pool G P ops r Hr s t. subst s t.
+  rewrite (call_plain_any pool G P ops r), (onion_tr_plain _ r Hr). reflexivity.
 Qed.
 
 (* ------------------------------------------------------------------ *)
@@ -1072,17 +1137,48 @@ Lemma trace_done : forall pool, guard pool -> pool_plain pool -> forall ops r m,
       (enters LCO (spec_list LCO t) r ++ [] ++ exits LCO (rev (spec_list LCO t)) (RErr m)) ++
       exits LCI (rev (spec_list LCI t)) (RErr m), RErr m).
 Proof.
-  intros pool [Gi Go] [Pi Po] ops r m Hdone s t. subst s t.
-  destruct (run_refines pool (NoDup_code_inj _ Gi) (NoDup_code_inj _ Go) ops sys_init (inv_init pool))
-    as [H1 H2]. change (abs sys_init) with ssys_init in H1. rewrite H1. cbn [snd].
-  set (s := snd (run pool ops sys_init)) in *.
-  unfold call. apply (call_from_done sys (run_mops pool) read_handler (fun L => spec_list L (abs s))).
-  - reflexivity.
-  - intros L. rewrite spec_list_abs. apply (inv_sys_coherent pool s H2).
-  - intros L. rewrite spec_list_abs.
-    destruct H2 as [[_ [_ [Hci Hco]]] [_ [_ [Hsi Hso]]]].
-    destruct L; cbn [layer_pm];
-      [ exact (Forall_incl _ _ _ _ Pi Hci) | exact (Forall_incl _ _ _ _ Po Hco)
-      | exact (Forall_incl _ _ _ _ Po Hso) | exact (Forall_incl _ _ _ _ Pi Hsi) ].
-  - exact Hdone.
+  intros pool G P ops r m Hdone s t. subst s t.
+  rewrite (call_plain_any pool G P ops r), (onion_tr_done _ r m Hdone). reflexivity.
+Qed.
+
+Lemma trace_fails : forall pool, guard pool -> pool_plain pool -> forall ops r, ctx_mark r = None ->
+  let s := snd (run pool ops sys_init) in
+  let lst := fun L => spec_list L (snd (spec_run pool ops ssys_init)) in
+  (meth_mark r = Some 8001%N ->
+   call pool r s =
+   (s, enters LCI (lst LCI) r ++ (enters LCO (lst LCO) r ++ (enters LSO (lst LSO) r ++
+      (enters LSI (lst LSI) r ++ [ECore r] ++ exits LSI (rev (lst LSI)) (RErr 77))
+      ++ exits LSO (rev (lst LSO)) (RErr 77))
+      ++ exits LCO (rev (lst LCO)) (RWire 77))
+      ++ exits LCI (rev (lst LCI)) (RErr 77), RErr 77)) /\
+  (meth_mark r = Some 8002%N ->
+   call pool r s =
+   (s, enters LCI (lst LCI) r ++ (enters LCO (lst LCO) r ++ (enters LSO (lst LSO) r ++
+      (enters LSI (lst LSI) r ++ [ECore r] ++ [])
+      ++ exits LSO (rev (lst LSO)) (RErr 78))
+      ++ exits LCO (rev (lst LCO)) (RWire 78))
+      ++ exits LCI (rev (lst LCI)) (RErr 78), RErr 78)).
+Proof.
+  intros pool G P ops r Hlive s lst. subst s lst.
+  destruct (onion_tr_fails (fun L => spec_list L (snd (spec_run pool ops ssys_init))) r Hlive) as [H1 H2].
+  split; intros Hm; rewrite (call_plain_any pool G P ops r); [rewrite (H1 Hm) | rewrite (H2 Hm)]; reflexivity.
+Qed.
+
+(* a call leaves nothing behind in the managers (the chain is looked up at each call, there is no
+   per-context copy of it): the state after a history is the same with or without calls in it *)
+Lemma run_app_snd : forall pool a b s, snd (run pool (a ++ b) s) = snd (run pool b (snd (run pool a s))).
+Proof.
+  intros pool a. induction a as [|o a IH]; intros b s; [reflexivity|].
+  destruct o as [m|q]; cbn [app run].
+  - destruct (mop_step pool m s) as [s1 st]. specialize (IH b s1).
+    destruct (run pool (a ++ b) s1), (run pool a s1). exact IH.
+  - destruct (call pool q s) as [[s1 t] x]. specialize (IH b s1).
+    destruct (run pool (a ++ b) s1), (run pool a s1). exact IH.
+Qed.
+
+Lemma calls_leave_no_state : forall pool, guard pool -> pool_plain pool -> forall ops q,
+  snd (run pool (ops ++ [OCall q]) sys_init) = snd (run pool ops sys_init).
+Proof.
+  intros pool G P ops q. rewrite run_app_snd. cbn [run].
+  rewrite (call_plain_any pool G P ops q). reflexivity.
 Qed.
